@@ -415,6 +415,23 @@ func (m *Manager) Poll() error {
 	return nil
 }
 
+// RunIfPolling runs fn while holding the state lock if, and only if, the
+// manager is still in the polling state, and reports whether it ran. Poll
+// callbacks run without the lock; anything they do that is only valid while the
+// poll is current (disconnecting peers, closing poll listeners) must go through
+// here so that it cannot interleave with, or follow, a Wake. fn must not call
+// back into methods that take the state lock.
+func (m *Manager) RunIfPolling(fn func()) bool {
+	m.stateMu.Lock()
+	defer m.stateMu.Unlock()
+
+	if m.state.Load().(State) != StatePolling {
+		return false
+	}
+	fn()
+	return true
+}
+
 // GetState returns the current sleep state.
 func (m *Manager) GetState() State {
 	return m.state.Load().(State)
